@@ -1,2 +1,87 @@
-(* C03 — statements are added when the engine proofs (see notes/) are closed. *)
-From Parsley Require Import Engine Spec.
+(* C03 — Memoize is transparent, deterministic and evaluates at most once per position.
+   Only statements: each theorem repeats the full statement of a lemma proved elsewhere and is closed by [exact]. *)
+From Coq Require Import String List NArith ZArith Bool.
+From Parsley Require Import Obs Base Grammar Engine EngineHarness MemoTransparent.
+Import ListNotations.
+Open Scope N_scope.
+
+(* For every left-recursion-free grammar (static hypothesis lr_free: one site per Memoize index and a ranking of indexes and
+   rules that strictly increases along every chain entered before input is certainly consumed), every input and any fuels
+   for which both runs finish: the memoised run and the run with every Memoize removed return the same ORDERED result list,
+   the same error, and contexts whose furthest recorded error is at the same position. *)
+Theorem C03_transparent :
+  forall (inp : input) (rules : list pexpr) (root : pexpr) (f f' : nat)
+    (ns : list node) (cp : intset) (err : option perr) (c : ctx) (ns' : list node)
+    (cp' : intset) (err' : option perr) (c' : ctx),
+  lr_free rules root ->
+  run inp rules f root = Ok (ns, cp, err, c) ->
+  run inp (map strip_memo rules) f' (strip_memo root) = Ok (ns', cp', err', c') ->
+  ns = ns' /\ err = err' /\ option_map epos (cerr c) = option_map epos (cerr c').
+Proof. exact @MemoTransparent.C03_transparent. Qed.
+Print Assumptions C03_transparent.
+
+(* Any two memoisations (any subsets of sub-parsers wrapped) of the same grammar agree in the same way. *)
+Theorem C03_transparent_subset :
+  forall (inp : input) (rules1 : list pexpr) (root1 : pexpr) (rules2 : list pexpr)
+    (root2 : pexpr) (f1 f2 f0 : nat) (ns1 : list node) (cp1 : intset) 
+    (err1 : option perr) (c1 : ctx) (ns2 : list node) (cp2 : intset) 
+    (err2 : option perr) (c2 : ctx) (r0 : pres),
+  lr_free rules1 root1 ->
+  lr_free rules2 root2 ->
+  map strip_memo rules1 = map strip_memo rules2 ->
+  strip_memo root1 = strip_memo root2 ->
+  run inp rules1 f1 root1 = Ok (ns1, cp1, err1, c1) ->
+  run inp rules2 f2 root2 = Ok (ns2, cp2, err2, c2) ->
+  run inp (map strip_memo rules1) f0 (strip_memo root1) = Ok r0 ->
+  ns1 = ns2 /\ err1 = err2 /\ option_map epos (cerr c1) = option_map epos (cerr c2).
+Proof. exact @MemoTransparent.C03_transparent_subset. Qed.
+Print Assumptions C03_transparent_subset.
+
+(* Under lr_free: no (parser index, position) pair occurs twice in the log of Memoize body executions, every activation count
+   is 1, nothing is curtailed, every cache entry is stored with an empty context. *)
+Theorem C03_once :
+  forall (inp : input) (rules : list pexpr) (root : pexpr) (f : nat)
+    (ns : list node) (cp : intset) (err : option perr) (c : ctx),
+  lr_free rules root ->
+  run inp rules f root = Ok (ns, cp, err, c) ->
+  NoDup (map fst (g_bodies c)) /\
+  (forall x : N * N * N, In x (g_bodies c) -> snd x = 1) /\
+  cp = [] /\
+  (forall (idx pos : N) (r : result),
+   cache_find (idx, pos) (cache c) = Some r -> r_lrc r = [] /\ r_cp r = []) /\
+  (forall n : node, In n ns -> i_offset inp <= node_rpos n).
+Proof. exact @MemoTransparent.C03_once. Qed.
+Print Assumptions C03_once.
+
+(* Two runs from fresh contexts (any sufficient fuels) give the same whole outcome; cache reuse does not depend on the order
+   of the stored context's keys (Go's map iteration order is irrelevant). *)
+Theorem C03_deterministic :
+  (forall (inp : input) (rules : list pexpr) (root : pexpr) (f1 f2 : nat) (x y : outcome pres),
+   run inp rules f1 root = x ->
+   x <> OutOfFuel -> run inp rules f2 root = y -> y <> OutOfFuel -> x = y) /\
+  (forall (stored stored' : list (N * N)) (cur cur' : intmap),
+   Permutation.Permutation stored stored' ->
+   (forall k : N, map_get k cur = map_get k cur') ->
+   reusable stored cur = reusable stored' cur').
+Proof. exact @MemoTransparent.C03_deterministic. Qed.
+Print Assumptions C03_deterministic.
+
+(* In particular results, errors, furthest error, call count and body log are reproduced. *)
+Theorem C03_deterministic_calls :
+  forall (inp : input) (rules : list pexpr) (root : pexpr) (f1 f2 : nat)
+    (ns1 : list node) (cp1 : intset) (err1 : option perr) (c1 : ctx) 
+    (ns2 : list node) (cp2 : intset) (err2 : option perr) (c2 : ctx),
+  run inp rules f1 root = Ok (ns1, cp1, err1, c1) ->
+  run inp rules f2 root = Ok (ns2, cp2, err2, c2) ->
+  ns1 = ns2 /\
+  err1 = err2 /\ cerr c1 = cerr c2 /\ calls c1 = calls c2 /\ g_bodies c1 = g_bodies c2.
+Proof. exact @MemoTransparent.C03_deterministic_calls. Qed.
+Print Assumptions C03_deterministic_calls.
+
+(* The witness-free boolean checker of left-recursion freedom is sound. *)
+Theorem C03_lr_free_auto_sound :
+  forall (rules : list pexpr) (root : pexpr),
+  lr_free_auto rules root = true -> lr_free rules root.
+Proof. exact @MemoTransparent.lr_free_auto_sound. Qed.
+Print Assumptions C03_lr_free_auto_sound.
+
